@@ -52,7 +52,14 @@ def gen_tasks(tier, seed):
     rng = random.Random(seed * 7919 + 11)
     tasks = []
     n = 4 if tier == "quick" else 8
-    starts = list(range(1, n + 1)) if tier == "quick" else list(range(0, n + 1))
+    all_starts = list(range(1, n + 1)) if tier == "quick" else list(range(0, n + 1))
+
+    def starts_for(a, b):
+        # quick: two start steps per (interval, interval) cell laid out as two Latin squares, so that every
+        # (statistics interval, start) and (preconditioner interval, start) pair occurs; thorough: the full cube
+        if tier != "quick":
+            return all_starts
+        return sorted({(a + b + seed) % n + 1, (a + 2 * b + seed + 1) % n + 1})
     gid = 0
     # ---- Distributed Shampoo, fixed intervals, replicated and sharded
     for mode in ["replicated", "sharded"]:
@@ -60,6 +67,7 @@ def gen_tasks(tier, seed):
             for pi in range(1, n + 1):
                 gid += 1
                 stress = rng.random() < 0.25
+                starts = starts_for(si, pi)
                 tasks.append({
                     "kind": "ds", "mode": mode, "si": si, "pi": pi, "sched": None, "starts": starts,
                     "T": max(_T(si, pi, s) for s in starts), "shapes": _shapes(rng), "gseed": seed * 100003 + gid,
@@ -83,6 +91,7 @@ def gen_tasks(tier, seed):
     for sf in range(1, n + 1):
         for pf in range(1, n + 1):
             gid += 1
+            starts = starts_for(sf, pf)
             tasks.append({"kind": "tfsh", "sf": sf, "pf": pf, "starts": starts,
                           "T": max(_T(sf, pf, s) for s in starts), "gseed": seed * 100003 + gid,
                           "graft": rng.choice(["SGD", "SGD", "RMSPROP"]),
@@ -91,6 +100,7 @@ def gen_tasks(tier, seed):
     # ---- Tearfree Sketchy (no x64)
     for f in range(1, n + 1):
         gid += 1
+        starts = all_starts
         tasks.append({"kind": "sk", "f": f, "starts": starts, "T": max(_T(f, 1, s) for s in starts),
                       "gseed": seed * 100003 + gid, "graft": rng.choice(["SGD", "RMSPROP"]),
                       "shape": rng.choice([[4, 3], [3, 3], [5, 2]]), "rank": rng.choice([1, 2])})
@@ -336,7 +346,15 @@ def _run_ds_group(c):
                     if not eq_s:
                         fails.append(f"step {t} >= start {start}: update of {n} is not the preconditioned momentum update")
                     if t == start and np.array_equal(u[n], ru):
-                        fails.append(f"step {t} == start {start}: update of {n} still equals the graft-only run")
+                        # only meaningful when the preconditioners in use are not the initial identity any more
+                        # (sharded mode at step 0, or every root rejected by a stressed gate, legitimately coincide)
+                        ksn = [k for k in range(nslot) if v1.owner[k][0] == n]
+                        ident = any(np.array_equal(np.asarray(v.P[k])[:v.sizes[k], :v.sizes[k]], np.eye(v.sizes[k], dtype=np.float32))
+                                    for v in (v0, v1) for k in ksn)
+                        if ident:
+                            st["boundary_identity"] = st.get("boundary_identity", 0) + 1
+                        else:
+                            fails.append(f"step {t} == start {start}: update of {n} still equals the graft-only run")
                 if not np.array_equal(v1.dmom[n], rv1.dmom[n]) and not np.allclose(v1.dmom[n], rv1.dmom[n], rtol=1e-5, atol=1e-7):
                     fails.append(f"step {t}: graft momentum of {n} depends on the preconditioning schedule")
                 # which preconditioner entered the Shampoo momentum of this step
@@ -552,6 +570,13 @@ def worker(task):
         import traceback
         return [{"case": {k: v for k, v in task.items() if k != "cases"}, "exception": type(e).__name__ + ": " + str(e)[:300],
                  "trace": traceback.format_exc()[-1500:], "fails": []}]
+    finally:
+        try:
+            import jax
+            _ROOT_CACHE.clear()
+            jax.clear_caches()
+        except Exception:  # noqa: BLE001
+            pass
 
 
 # ============================================================================ model requests / comparison
@@ -753,8 +778,37 @@ def const_stage(ctx):
     ctx.cov["constants"] = {"inverse_failure_threshold": thr, "schedule_literals": lits}
 
 
+def _task_tag(t):
+    return t["kind"] + ("." + t["mode"] if "mode" in t else "") + (".sched" if t.get("sched") else "")
+
+
+def _dev_filter(ctx, tasks):
+    """Builder aid for mutation experiments: C04_ONLY=ds.replicated,tfsh,... keeps only those task families,
+    C04_MAXTASKS=n keeps the first n of each. Recorded in the evidence so that a filtered run cannot pass for a full one."""
+    import os
+    only = os.environ.get("C04_ONLY")
+    cap = os.environ.get("C04_MAXTASKS")
+    if not only and not cap:
+        return tasks
+    keep, seen = [], {}
+    for t in tasks:
+        tag = _task_tag(t)
+        if only and tag not in only.split(","):
+            continue
+        seen[tag] = seen.get(tag, 0) + 1
+        if cap and seen[tag] > int(cap):
+            continue
+        keep.append(t)
+    ctx.notes.append(f"DEV FILTER ACTIVE (C04_ONLY={only}, C04_MAXTASKS={cap}): {len(keep)} of {len(tasks)} tasks run")
+    ctx.cov["dev_filter"] = {"only": only, "max": cap}
+    return keep
+
+
 def execute(ctx, tasks):
-    results = kit.parallel_map(worker, tasks, nproc=14, max_tasks_per_child=3)
+    # no max_tasks_per_child: ProcessPoolExecutor(max_tasks_per_child=...) can deadlock on CPython 3.12.1;
+    # the workers bound their XLA caches themselves (jax.clear_caches() after every task)
+    import os
+    results = kit.parallel_map(worker, tasks, nproc=min(14, int(os.environ.get("C04_NPROC", "14"))))
     obs = [o for grp in results for o in grp]
     reqs, spans = [], []
     for o in obs:
@@ -776,6 +830,9 @@ def execute(ctx, tasks):
         near = sum(st.get("near", 0) for st in o.get("steps", []) if isinstance(st, dict))
         if near:
             ctx.dist("ds.warmup.graft_only_run_near_not_bitwise", near)
+        bi = sum(st.get("boundary_identity", 0) for st in o.get("steps", []) if isinstance(st, dict))
+        if bi:
+            ctx.dist("ds.warmup.boundary_inconclusive_identity_preconditioner", bi)
     return obs
 
 
@@ -784,7 +841,8 @@ def run(ctx):
     const_stage(ctx)
     tasks = gen_tasks(ctx.tier, ctx.seed)
     ctx.cov["rule"] = (
-        "grid (statistics interval, preconditioner interval, start step) in [1..4]^3 (quick) / [1..8]^2 x [0..8] (thorough) for "
+        "grid (statistics interval, preconditioner interval, start step): quick = all of [1..4]^2 with two start steps of [1..4] per cell "
+        "(two Latin squares: every (interval, start) pair occurs), thorough = the full [1..8]^2 x [0..8], for "
         "Distributed Shampoo replicated and sharded (Mesh of 1 device + jit) and Tearfree Shampoo, update_freq x start for Tearfree "
         "Sketchy (no x64), plus learning-rate scheduled intervals with dyadic lr ratios; T = 2*lcm steps (cap 24; 36/46 scheduled); "
         "random N(0,1) float32 gradients on one or two small matrices. evaluations = optimizer steps whose successive states were "
@@ -800,6 +858,7 @@ def run(ctx):
         "warm-up theorems are exact over rings; over floats 0 * x = 0 needs a finite Shampoo branch — observed bitwise on every warm-up step",
         "scheduled interval modelled on Rat assuming lr(0) != 0 and lr ratios exactly representable (dyadic tables used)",
     ]
+    tasks = _dev_filter(ctx, tasks)
     obs = execute(ctx, tasks)
     picked = 0
     for o in obs:
